@@ -1,6 +1,7 @@
 (* Props/C01.v — timezone conversion preserves the instant and matches the tz database. *)
-From Coq Require Import ZArith Bool.
+From Coq Require Import ZArith Bool List.
 From PV Require Import Lib.PyBase Spec.Cal Spec.Zone Proofs.ZoneFacts Model.TzConvert Proofs.C01Facts.
+From PV Require Import Spec.TdFloat Model.FloatRoutes Proofs.FloatRoutesFacts Proofs.FloatRoutesFlocq.
 Open Scope Z_scope.
 
 (* the PEP 495 round trip every conversion rests on: rendering an instant and reading it back gives the instant *)
@@ -47,3 +48,55 @@ Theorem instance_pytz_second_pass_refuted :
     inst ny2013 W' f' = W - MEG * (-14400) /\ inst ny2013 W' f' <> W - MEG * (-18000).
 Proof. exact instance_pytz_refuted. Qed.
 Print Assumptions instance_pytz_second_pass_refuted.
+
+(* ------------------------------------------------------------------ FLOAT timestamps (Model/FloatRoutes.v): from_timestamp(t) for a double t
+   (datetime.utcfromtimestamp: modf, fraction * 1e6, round-half-even, carry) and timestamp() / float_timestamp = (self - EPOCH).total_seconds().
+   N is an instant in integer microseconds since the Unix epoch; total_seconds N is its float timestamp N / 10**6.
+   The float premise is proved with Flocq (Proofs/FloatRoutesFlocq.v); the axioms listed are those of Coq's real numbers. *)
+
+Theorem utcfromtimestamp_float_exact : forall N, Z.abs N < 2 ^ 33 * 10 ^ 6 -> utcfromtimestamp_float_us (total_seconds N) = Ok N.
+Proof. exact utcfromtimestamp_exact_proved. Qed.
+Print Assumptions utcfromtimestamp_float_exact.
+
+Theorem timestamp_inverts_from_timestamp_float : forall z N W f, wf_zone z = true -> Z.abs N < 2 ^ 33 * 10 ^ 6 ->
+  from_timestamp_float z false (total_seconds N) = Ok (W, f) ->
+  (W, f) = render z (EPOCH_US + N) /\ inst z W f = EPOCH_US + N /\ timestamp_float z W f = total_seconds N.
+Proof. exact timestamp_inverts_from_timestamp_proved. Qed.
+Print Assumptions timestamp_inverts_from_timestamp_float.
+
+Theorem timestamp_inverts_from_timestamp_float_utc : forall N W f, Z.abs N < 2 ^ 33 * 10 ^ 6 ->
+  from_timestamp_float (fixed_zone 0) true (total_seconds N) = Ok (W, f) ->
+  W = EPOCH_US + N /\ timestamp_float (fixed_zone 0) W f = total_seconds N.
+Proof. exact timestamp_inverts_from_timestamp_utc_proved. Qed.
+Print Assumptions timestamp_inverts_from_timestamp_float_utc.
+
+(* same result and same exceptions as from_timestamp at the instant EPOCH + N us; on whole seconds it is the integer route *)
+Theorem from_timestamp_float_is_the_instant : forall z b N, Z.abs N < 2 ^ 33 * 10 ^ 6 ->
+  from_timestamp_float z b (total_seconds N) =
+  (let U := EPOCH_US + N in if negb (wall_in_range U) then Raise E_ValueError else in_tz b (fixed_zone 0) z U true).
+Proof. exact from_timestamp_float_unfold_proved. Qed.
+Print Assumptions from_timestamp_float_is_the_instant.
+
+Theorem from_timestamp_float_agrees_with_int_on_whole_seconds : forall z b n, Z.abs (n * MEG) < 2 ^ 33 * 10 ^ 6 ->
+  from_timestamp_float z b (total_seconds (n * MEG)) = from_timestamp_int z b n.
+Proof. exact from_timestamp_float_whole_proved. Qed.
+Print Assumptions from_timestamp_float_agrees_with_int_on_whole_seconds.
+
+(* beyond 2^33 s (year 2242..) doubles are more than 1 us apart: total_seconds N no longer determines N.  from_timestamp returns the
+   microsecond nearest to the double (N + 1 here) and timestamp() of that DateTime is the same double: timestamp() still inverts
+   from_timestamp(), but the DateTime is not the instant N (it is the instant the DOUBLE denotes).  Not a failure of the property. *)
+Theorem from_timestamp_float_beyond_2_33_refuted :
+  let z := fixed_zone 0 in let N := 8589934592000001 in
+  exists W f, Z.abs N >= 2 ^ 33 * 10 ^ 6 /\ from_timestamp_float z false (total_seconds N) = Ok (W, f) /\
+    inst z W f = EPOCH_US + N + 1 /\ inst z W f <> EPOCH_US + N /\
+    timestamp_float z W f = total_seconds N /\ total_seconds (N + 1) = total_seconds N.
+Proof. exact from_timestamp_float_beyond_refuted. Qed.
+Print Assumptions from_timestamp_float_beyond_2_33_refuted.
+
+(* kernel evaluation between 2^33 s and the year-1 / year-9999 limits: timestamp() inverts from_timestamp() and the instant is within 64 us;
+   the last 15 microseconds of year 9999 round up to year 10000 and raise *)
+Theorem timestamp_inverts_from_timestamp_float_beyond_family :
+  (forallb ts_invertb beyond_family = true /\ (length beyond_family >= 100)%nat) /\
+  from_timestamp_float (fixed_zone 0) false (total_seconds 253402300799999985) = Raise E_ValueError.
+Proof. exact ts_beyond_family_evaluated. Qed.
+Print Assumptions timestamp_inverts_from_timestamp_float_beyond_family.
